@@ -124,6 +124,12 @@ def curated(kind="general"):
     L.append(N("All", N("Any", a(), N("Any", id="E"), id="B"), N("Any", b(), c(), id="C"), id="A"))
     L.append(N("Any", N("All", id="E"), a(), id="A"))
     L.append(N("Imply", N("Any", a(), N("All", id="E"), id="B"), AL(1, id="F", sign=1), id="A"))
+    # integer leaves directly under the logical connectives (arithmetic meaning: Any is "sum >= 1", a negative sibling can cancel a true one)
+    L.append(N("Any", j(), a(), id="A"))
+    L.append(N("All", N("Any", j(), a(), b(), id="B"), c(), id="A"))
+    L.append(N("Imply", N("Any", i(), a()), N("Xor", j(), b(), id="C"), id="A"))
+    L.append(N("XNor", i(), a(), b(), id="A"))
+    L.append(N("All", i(), N("Any", a(), N("All", j(), b(), id="C"), id="B"), id="A"))
     # deeper
     L.append(N("All", N("Any", N("All", a(), b(), id="D"), c(), id="B"), AL(2, d(), i(), id="C", sign=1), id="A"))
     L.append(AL(1, AM(2, a(), b(), c(), id="B"), AL(4, i(), j(), id="C", sign=1), id="A", sign=1))
@@ -138,7 +144,9 @@ def random_skeleton(rng, max_nodes=5, max_depth=3, connectives=None, int_leaves=
     shared = []
 
     def leaf(allow_int):
-        if allow_int and int_leaves and rng.random() < 0.35:
+        # integer leaves mostly under the cardinality connectives, but also (less often) under All/Any/Xor/XNor/Imply, whose meaning is
+        # still the arithmetic one ("sum >= 1", ...): a negative sibling can cancel a true one
+        if int_leaves and rng.random() < (0.35 if allow_int else 0.12):
             return rng.choice([i, j])()
         return rng.choice([a, b, c, d])()
 
